@@ -194,7 +194,7 @@ def run_check(pid, tier, seed):
     sys.path.insert(0, VERIF)
     sys.path.insert(0, REPO_PY)
     sys.dont_write_bytecode = True
-    sys.setrecursionlimit(20000)
+    sys.setrecursionlimit(400000)
     from sx import core, instrument, run as sxrun
     core.Ctx.seed = seed
     instrument.install('pydiffx')
